@@ -283,3 +283,33 @@ func ZZElect(ne, nr int) {
 	}
 	vReach("end")
 }
+
+// ZZReplace (C19): the ensemble bookkeeping of a node swap (replaceInList, mergeLists, listContains)
+// with symbolic 1-byte server identifiers: when the new server is not already a member, the new
+// ensemble has the same size, contains the new server exactly once, not the old one, and no duplicates.
+func ZZReplace(n int) {
+	ids := vBytes("id", n+2)
+	mk := func(b byte) model.Server { s := string([]byte{b}); return model.Server{Public: s, Internal: s} }
+	var list []model.Server
+	for i := 0; i < n; i++ {
+		for j := 0; j < i; j++ {
+			vAssume(ids[i] != ids[j])
+		}
+		list = append(list, mk(ids[i]))
+	}
+	from := mk(ids[vChoice("from", n)])
+	to := mk(ids[n])
+	vAssume(!listContains(list, to))
+	res := replaceInList(list, from, to)
+	vAssert("same-size", len(res) == n)
+	vAssert("contains-new", listContains(res, to))
+	vAssert("drops-old", !listContains(res, from))
+	for i := range res {
+		for j := 0; j < i; j++ {
+			vAssert("no-duplicates", res[i].Internal != res[j].Internal)
+		}
+	}
+	merged := mergeLists(res, []model.Server{from})
+	vAssert("fencing-quorum-covers-old-and-new", len(merged) == n+1 && listContains(merged, from) && listContains(merged, to))
+	vReach("end")
+}
